@@ -64,6 +64,9 @@ def work(tier, seed):
                     pass
                 items.append({"kind": "values", "ncols": ncols, "assign": list(assign), "rot": k})
                 k += 1
+    for ncols in (1, 2):
+        for ngroups in (11, 12, 23):
+            items.append({"kind": "many_groups", "ncols": ncols, "ngroups": ngroups})
     for j in range(b["bootstrap_frames"]):
         items.append({"kind": "bootstrap", "which": j})
     items.append({"kind": "errors"})
@@ -198,6 +201,8 @@ def run(item, ctx, tier, seed):
         return _run_errors(ctx)
     if item["kind"] == "bootstrap":
         return _run_bootstrap(item, ctx, b)
+    if item["kind"] == "many_groups":
+        return _run_many_groups(item, ctx, b)
     rows = make_rows(item)
     ncols, rot = item["ncols"], item["rot"]
     cfg = CFGS[rot % 4]
@@ -452,6 +457,41 @@ def judge_bootstrap(ctx, case, bf, rows, ncols, keys, tl, metric, cfg, pos_label
             ctx.fail("interval-is-for-the-normalised-quantity", dict(case, group=repr(k), threshold=tl[t]), observed=[lo, hi],
                      expected=[list(c) for c in cands], faulty_by_min_axis0_match=fm)
             return
+
+
+def _run_many_groups(item, ctx, b):
+    """More than ten groups: positional / lexicographic mix-ups of internal group codes only show from 11 on."""
+    ncols, G = item["ncols"], item["ngroups"]
+    regions = ["north", "south", "east", "west", "n_e", "s_w"]
+    devices = ["phone", "tablet", "pc", "tv"]
+    rows = []
+    for g_ in range(G):
+        # two or three rows per group, labels and scores vary with the group so that metrics differ
+        for j in range(2 + g_ % 2):
+            r = {"l": 1 if (g_ + j) % 3 else 0, "s": round(((g_ * 7 + j * 5) % 20) / 20.0, 2)}
+            if ncols == 1:
+                r["g"] = f"g{g_}" if g_ % 2 else str(g_)
+            else:
+                r["g"], r["h"] = regions[g_ % len(regions)], devices[(g_ // len(regions)) % len(devices)]
+            rows.append(r)
+    rows = rows[::-1]
+    for cfg in CFGS[:2]:
+        for metric in ("fnr", "topr", "tp", "accuracy"):
+            for threshold, tl in (([0.5, 0.25], [0.5, 0.25]),):
+                tab, overall = expected_table(rows, ncols, tl, metric, cfg, 1)
+                for how in b["normalize"]:
+                    case = {"kind": "many_groups", "groups": G, "ncols": ncols, "metric": metric, "threshold": threshold,
+                            "normalize": how, "cfg": list(cfg), "rows": rows[:4] + ["..."]}
+                    ctx.state()
+                    ctx.nontrivial()
+                    ok, bf = guarded(ctx, "showbias", case, call_showbias, rows, ncols, metric, threshold, how, cfg, 1)
+                    ctx.tick()
+                    if ok:
+                        want, judged = normalise(tab, overall, how)
+                        compare_table(ctx, case, bf.values, want, judged, tl,
+                                      "entry-is-metric-of-that-groups-rows" if how is None else "normalised-entry")
+    ctx.sample({"kind": "many_groups", "groups": G, "ncols": ncols})
+    return None
 
 
 def _run_errors(ctx):
